@@ -19,6 +19,7 @@ BODY = {'body': 'func:PARSE'}
 def register(reg):
     register2(reg)
     register3(reg)
+    register4(reg)
     # -- cut: sets the flag on the TOP frame only (C05)
     contract(reg, f'{K}:ParserCore.statescope', ALL, {'self': 'Ctx', 'merge': 'bool'}, ret='None', requires=REQ, ghost=BODY,
              ensures=[('property', f'out_ok(body, {FRESH})'),
@@ -141,3 +142,24 @@ def register3(reg):
                               ('property', f'{TOP}.cst == spec_cstmerge({OTOP}.cst, result)'),
                               ('property', f'{TOP}.cutseen == {OTOP}.cutseen')],
                      raises={'FailedParse': [SAME]}, propagates=[GROW])
+
+
+def register4(reg):
+    """generated-code twins of the naming nodes (C02).  The emitted block binds `last_node`; it equals what the
+    model's Named/NamedList/Override bind exactly when the block satisfies GEN-LAST (its last_node is its value)."""
+    F = f'out_frame(body, {OTOP})'
+
+    def binds(key, combine, value):
+        return (f'{S} == {OS}[:-1] + [spec_with_ast({F}, dict_with({F}.ast, uf_safekey({key}), '
+                f'{combine}(dict_get({F}.ast, uf_safekey({key})), {value})))]')
+
+    fails = {'FailedParse': [f'not out_ok(body, {OTOP})', f'{S} == {OS}[:-1] + [out_fail_frame(body, {OTOP})]']}
+    for meth, key, combine, sig in (('nameset', 'name', 'spec_cstadd', {'self': 'Ctx', 'name': 'str'}),
+                                    ('nameadd', 'name', 'spec_cstaddlist', {'self': 'Ctx', 'name': 'str'}),
+                                    ('result', "'__vallue__'", 'spec_cstadd', {'self': 'Ctx'}),
+                                    ('resultadd', "'__vallue__'", 'spec_cstaddlist', {'self': 'Ctx'})):
+        contract(reg, f'{X}:ParseContext.{meth}', ['C02'], sig, ret='None', requires=REQ, ghost=BODY,
+                 ensures=[('property', f'out_ok(body, {OTOP})'),
+                          ('property', binds(key, combine, f'{F}.last_node')),
+                          ('property', f'implies({F}.last_node == out_ret(body, {OTOP}), ' + binds(key, combine, f'out_ret(body, {OTOP})') + ')')],
+                 raises=fails, propagates=[GROW])
